@@ -49,4 +49,30 @@ def sibLoop (tau : Nat) (h : List Nat) : List Nat → List Int → List Nat → 
 def sampleInBall (tau : Nat) (stream : List Nat) : Option (List Int) :=
   sibLoop tau (bytesToBits (stream.take 8)) ((List.range tau).map (fun t => 256 - tau + t)) (List.replicate 256 0) (stream.drop 8)
 
+
+/-- Algorithm 31 lines 5-17 `RejBoundedPoly`: `z ← Squeeze(1); z0 ← CoeffFromHalfByte(z mod 16, η); z1 ← CoeffFromHalfByte(⌊z/16⌋, η)`;
+    `z0` then `z1` are appended when not `⊥` and while fewer than 256 coefficients are held -/
+def rejBounded (eta : Int) : Nat → List Nat → List Int → Option (List Int)
+  | 0, _, _ => none
+  | n + 1, s, acc =>
+    if acc.length ≥ 256 then some acc.reverse else
+    match s with
+    | z :: rest =>
+      let acc := match coeffFromHalfByte eta (z % 16) with | some v => v :: acc | none => acc
+      let acc := match coeffFromHalfByte eta (z / 16) with | some v => if acc.length < 256 then v :: acc else acc | none => acc
+      rejBounded eta n rest acc
+    | [] => none
+
+/-- Algorithm 31 `RejBoundedPoly(ρ)` on the stream `H(ρ)` -/
+def rejBoundedPoly (eta : Int) (stream : List Nat) : Option (List Int) := rejBounded eta (stream.length + 2) stream []
+
+/-- Algorithm 33 `ExpandS(ρ)`: `s1[r] ← RejBoundedPoly(ρ ‖ IntegerToBytes(r, 2))`, `s2[r] ← RejBoundedPoly(ρ ‖ IntegerToBytes(r + ℓ, 2))` -/
+def expandS (H : List Nat → List Nat) (eta : Int) (k l : Nat) (rho : List Nat) : Option (List (List Int) × List (List Int)) :=
+  match (List.range l).mapM (fun r => rejBoundedPoly eta (H (rho ++ [r % 256, 0]))) with
+  | none => none
+  | some s1 =>
+    match (List.range k).mapM (fun r => rejBoundedPoly eta (H (rho ++ [(r + l) % 256, 0]))) with
+    | none => none
+    | some s2 => some (s1, s2)
+
 end Fips204.Spec
